@@ -1658,6 +1658,10 @@ class GroupBy:
         """
         from ..emas import ema_grouped
 
+        if self.key_is_chunked:
+            # chunk-local codes are meaningless across chunks
+            self._unify_group_key_chunks()
+
         value_names, value_list, type_list, common_index = self._preprocess_arguments(
             values, mask
         )
